@@ -100,7 +100,8 @@ def _sizes(ev, o, node):
 
 def attr_models():
     m = da_attr_models()
-    m[("DataArray", "coords")] = lambda ev, o, n: Obj("Coords", "coords", (), {"of": o})
+    # the inputs of this harness carry no coordinates (pad() strips them anyway, C19 R19.3): the coordinate table is empty
+    m[("DataArray", "coords")] = lambda ev, o, n: {}
     m[("DataArray", "sizes")] = _sizes
     m[("DataArray", "shape")] = lambda ev, o, n: tuple(_sizes(ev, o, n)[d] for d in o.attrs.get("dims", ()))
     return m
@@ -130,6 +131,11 @@ def m_concat(ev, args, kw, node):
         dims = (d,) + tuple(dims)
     ev.events.append(("concat", parts, d, dict(kw), node))
     return Obj("DataArray", "CONCAT", (), {"parts": parts, "dim": d, "dims": dims, "dims0": dims, "kw": dict(kw), "__isinstance__": ("DataArray",)})
+
+
+# the rule and fill value in force for the calls of this harness: one word and one number per axis, different from each other
+RULES_IN_FORCE = {AX: "extend", AY: "fill"}
+FILLS_IN_FORCE = {AX: 1.5, AY: 2.5}
 
 
 def table_for(is_right: bool, swap: bool, reverse: bool):
@@ -180,15 +186,16 @@ def run(P, table, vector=None, widths=None, padding=None, n_faces=2, other_compo
     w = Lin.sym("w")
     # prune: the coordinate-bookkeeping test (`<dim> in <slice>.coords`) is taken as False; it does not influence
     # which cells are selected (the unpruned runs check that both arms agree) and only multiplies the paths
-    ev = Evaluator(P, models={"padding:_pad_basic": m_pad_basic, "xarray.concat": m_concat}, method_models=method_models(),
+    ev = Evaluator(P, models={"padding:_pad_basic": m_pad_basic, "xarray.concat": m_concat, "warnings.warn": lambda ev_, a, k, n: None}, method_models=method_models(),
                    attr_models=attr_models(), facts=dict(FACTS), assume_false=(".coords",) if prune else ())
-    fi = P.func("padding:_pad_face_connections")
+    # the entry is the public pad(): it completes the options, strips the coordinates and hands over to the face padding in
+    # whatever way the tree at hand does that - the harness knows nothing of the private function's parameters
+    fi = P.func("padding:pad")
 
     def mk(name, dims):
         return make_da(name, dims, dims0=tuple(dims), n_faces=n_faces)
 
     def make():
-        # grid_boundary: the Grid-level default rule of both axes (a word), else an opaque value equal to no word
         g = make_grid(("AX", "AY"), face_connections=copy.deepcopy(table), facedim=FACE, **({"boundary": grid_boundary} if grid_boundary else {}))
         if vector is None:
             da = mk("MAIN", dims_scalar or [Sym("t"), FACE, dimsym("AY", "center"), dimsym("AX", "center")])
@@ -210,8 +217,8 @@ def run(P, table, vector=None, widths=None, padding=None, n_faces=2, other_compo
             if other_component != "auto":
                 oc = other_component
         pw = copy.deepcopy(widths) if widths is not None else {AX: (w, w)}
-        pd = copy.deepcopy(padding) if padding is not None else {AX: Sym("RULE_AX"), AY: Sym("RULE_AY")}
-        return dict(da=da, grid=g, padding_width=pw, padding=pd, fill_value={AX: Sym("FILL_AX"), AY: Sym("FILL_AY")}, other_component=oc)
+        pd = copy.deepcopy(padding) if padding is not None else dict(RULES_IN_FORCE)
+        return dict(data=da, grid=g, boundary_width=pw, boundary=pd, fill_value=dict(FILLS_IN_FORCE), other_component=oc)
 
     return ev.run_paths(fi, make)
 
